@@ -307,8 +307,23 @@ func checkHash(c *core.Ctx, ids map[string]int64) {
 // irreflexive on Compare-equal values and asymmetric otherwise.
 func checkContainerUsers(c *core.Ctx) {
 	p := c.Prog
+	nHash := checkHashmapSites(c, nil)
+	if nHash < 3 {
+		c.Unknown("USERS", "<hashmap sites>", 0, fmt.Sprintf("only %d hashmap.New sites found (Distinct, SimpleGroupBy, aggregates.Distinct expected)", nHash))
+	}
+	checkValueComparators(c)
+	_ = p
+}
+
+// checkHashmapSites: every hashmap.New site pairs an equality built from Compare == 0
+// with Hash/HashManyValues of the whole key. only restricts to enclosing functions by name.
+func checkHashmapSites(c *core.Ctx, only map[string]bool) int {
+	p := c.Prog
 	nHash := 0
 	for _, fn := range p.AllFuncs("execution", "aggregates", "outputs") {
+		if only != nil && !only[p.FName(fn)] {
+			continue
+		}
 		info := fn.Info()
 		ast.Inspect(fn.Decl.Body, func(n ast.Node) bool {
 			call, ok := n.(*ast.CallExpr)
@@ -378,9 +393,11 @@ func checkContainerUsers(c *core.Ctx) {
 			return true
 		})
 	}
-	if nHash < 3 {
-		c.Unknown("USERS", "<hashmap sites>", 0, fmt.Sprintf("only %d hashmap.New sites found (Distinct, SimpleGroupBy, aggregates.Distinct expected)", nHash))
-	}
+	return nHash
+}
+
+func checkValueComparators(c *core.Ctx) {
+	p := c.Prog
 	// comparators on values
 	type cmpSite struct{ rel, name string }
 	for _, s := range []cmpSite{{"aggregates", "(*minKey).Less"}, {"aggregates", "(*maxKey).Less"}, {"aggregates", "(*arrayKey).Less"}} {
